@@ -231,7 +231,7 @@ func (g *gen) rule() string {
 		}
 	}
 	bodyN := 1 + g.r.Below(4)
-	switch g.r.Below(12) {
+	switch g.r.Below(14) {
 	case 0:
 		sb.WriteString("default " + g.ident() + " := " + g.pick([]string{"false", "0", "[]", "{}", "\"d\"", "{\"a\": [1, {2}]}"}))
 	case 1:
@@ -262,6 +262,8 @@ func (g *gen) rule() string {
 		sb.WriteString("test_" + g.ident() + " if {\n\t" + g.body(bodyN, "\n\t") + "\n}")
 	case 10:
 		sb.WriteString("default " + g.ident() + "(_) := " + g.pick([]string{"false", "1"}))
+	case 11:
+		sb.WriteString(g.cmpFunction())
 	default:
 		sb.WriteString(g.headRef() + "[" + g.ident() + "] := " + g.term() + " if {\n\t" + g.body(bodyN, "\n\t") + "\n}")
 	}
@@ -269,6 +271,35 @@ func (g *gen) rule() string {
 		sb.WriteString(" # trailing comment " + g.pick(strs[:8]))
 	}
 	return sb.String()
+}
+
+// cmpFunction: small functions whose body or value is ONE comparison / membership between every kind of
+// operand — the shape many idiomatic/* rules pattern-match on with several overlapping definitions
+func (g *gen) cmpFunction() string {
+	args := g.pick([]string{"x", "x, y", "o, k", "_", "x, _", "xs, x", "[a, b]", "x, 1"})
+	operand := func() string {
+		return g.pick([]string{"x", "y", "o", "k", "xs", "_", "1", "\"s\"", "null", "true", "1.5", "o[k]", "xs[_]", "x[_]", "o[_]", "x.y", "input.x",
+			"data.p.q", "[1]", "{\"a\": 1}", "{1}", "count(x)", "x[y]", "o[\"k\"]", "y[x]", "a", "b", "input", "xs[i]"})
+	}
+	op := g.pick([]string{"==", "=", "!=", "in", "==", "="})
+	name := g.pick([]string{"f", "g", "has_key", "contains_x", "is_" + g.ident()})
+	cmp := operand() + " " + op + " " + operand()
+	switch g.r.Below(7) {
+	case 0:
+		return name + "(" + args + ") := " + cmp
+	case 1:
+		return name + "(" + args + ") if " + cmp
+	case 2:
+		return name + "(" + args + ") if {\n\t" + cmp + "\n}"
+	case 3:
+		return name + "(" + args + ") = " + cmp
+	case 4:
+		return name + "(" + args + ") := " + operand() + " if " + cmp
+	case 5:
+		return name + "(" + args + ") if {\n\t" + cmp + "\n\t" + operand() + " " + op + " " + operand() + "\n}"
+	default:
+		return name + "(" + args + ") if " + cmp + "\n\n" + name + "(" + args + ") if " + operand() + " " + op + " " + operand()
+	}
 }
 
 func (g *gen) module() string {
